@@ -290,6 +290,61 @@ def shapes(t, sd):
     for pats in (["fork", "alt"], ["alt", "fork"], ["all", "none"]):
         items.append(dict(spec=spec, ninst=1, shape="2cp+cross", max_seconds=300, text=(pats[0] == "all"), patterns=pats))
     items.append(dict(spec=spec, ninst=2, shape="2cp+cross", max_seconds=300, patterns=["alt", "all", "none"]))
+    # seeded random covergroup populations
+    rnd = random.Random(sd)
+
+    def rand_cp(name):
+        r = rnd.random()
+        cp = {"name": name}
+        if r < 0.12:
+            cp["type"] = ["enum", "E5"]
+            if rnd.random() < 0.4:
+                cp["ignore"] = [["ig", [rnd.choice([0, 1, 5, 9, 200])]]]
+            return cp
+        if r < 0.25:
+            cp["type"] = [rnd.choice("us"), rnd.randint(1, 3)]
+            if rnd.random() < 0.5:
+                cp["auto_bin_max"] = rnd.choice([1, 2, 3, 64])
+            return cp
+        cp["type"] = ["u", 5]
+        pts = sorted(rnd.sample(range(0, 32), 8))
+        segs = [[pts[2 * i], pts[2 * i + 1] - 1 if pts[2 * i + 1] - 1 >= pts[2 * i] else pts[2 * i]] for i in range(4)]
+        bins = []
+        for bi in range(rnd.randint(1, 3)):
+            seg = segs[bi]
+            seg = [seg[0], min(seg[1], seg[0] + 3)]
+            k = rnd.random()
+            if k < 0.4:
+                bins.append(["b%d" % bi, "bin", [seg if seg[0] != seg[1] else seg[0]]])
+            elif k < 0.75:
+                bins.append(["a%d" % bi, "array", None, [seg]])
+            else:
+                bins.append(["p%d" % bi, "array", rnd.randint(1, 3), [seg]])
+        cp["bins"] = bins
+        ex = segs[3]
+        if rnd.random() < 0.5:
+            cp["ignore"] = [["ig%d" % i, [ex[0] + i]] for i in range(rnd.randint(1, 2)) if ex[0] + i <= ex[1]] or [["ig0", [ex[0]]]]
+        if rnd.random() < 0.5:
+            cp["illegal"] = [["il%d" % i, [ex[1] - i]] for i in range(rnd.randint(1, 3)) if ex[1] - i > ex[0] + 1] or None
+            if cp["illegal"] is None:
+                del cp["illegal"]
+        if rnd.random() < 0.4:
+            cp["at_least"] = rnd.choice([1, 2, 5])
+        if rnd.random() < 0.3:
+            cp["weight"] = rnd.choice([0, 1, 2, 3])
+        return cp
+    for i in range(6 if t == "quick" else 2000):
+        ncp = rnd.randint(1, 3)
+        spec = {"cps": [rand_cp("p%d" % (k + 1)) for k in range(ncp)]}
+        if ncp >= 2 and rnd.random() < 0.4:
+            spec["crosses"] = [{"name": "x", "cps": ["p1", "p2"], "at_least": rnd.choice([None, 1, 2])}]
+        if rnd.random() < 0.3:
+            spec["options"] = {"at_least": rnd.choice([1, 2])}
+        ninst = rnd.randint(1, 3)
+        pats = [rnd.choice(["all", "none", "alt"]) for _ in range(ninst + 1)]
+        if not spec.get("crosses") and ncp == 1 and rnd.random() < 0.5:
+            pats[rnd.randrange(ninst + 1)] = "fork"
+        items.append(dict(spec=spec, ninst=ninst, shape="random#%d" % i, patterns=pats, rename=(rnd.random() < 0.3), max_seconds=200))
     return items
 
 
